@@ -86,39 +86,51 @@ Print Assumptions C20_result_packing.
 (* ---- second sentence: elements carry exactly those names, in the matching nesting, each in
         the corresponding component space ---------------------------------------------------- *)
 
-(* Full statement: the same without [fits]; it is false of the code (zip truncates silently): *)
-Theorem C20_element_structure_refuted :
-  exists sp p names e, expand_A p SeqAbsent = Ok names /\ element_of sp p = Ok e /\
-                       names_tree e <> names /\ map fst (leaves e) <> flat_out names.
-Proof. exact element_structure_refuted. Qed.
-Print Assumptions C20_element_structure_refuted.
-
-Theorem C20_elements_structure_refuted :
-  exists sp p names e, expand_A p (SeqBool true) = Ok names /\ elements_of sp p = Ok e /\
-                       names_tree e <> names /\ map fst (leaves e) <> flat_out names.
-Proof. exact elements_structure_refuted. Qed.
-Print Assumptions C20_elements_structure_refuted.
-
-(* [fits sp names]: under a product space there are no more entries than component spaces *)
-Theorem C20_element_of_structure_partial : forall sp p names e,
-  expand_A p SeqAbsent = Ok names -> element_of sp p = Ok e -> fits sp names = true ->
+(* whenever element_of / elements_of return, the names of the created functions, with their
+   nesting and container kinds, are exactly the expanded names, and every function lies in the
+   corresponding space ([placed]: the space itself, resp. the i-th component for the i-th entry,
+   one entry per component) *)
+Theorem C20_element_of_structure : forall sp p names e,
+  expand_A p SeqAbsent = Ok names -> element_of sp p = Ok e ->
   names_tree e = names /\ placed sp e.
-Proof. exact element_of_structure_partial. Qed.
-Print Assumptions C20_element_of_structure_partial.
+Proof. exact element_of_structure. Qed.
+Print Assumptions C20_element_of_structure.
 
-Theorem C20_elements_of_structure_partial : forall sp p names e,
-  expand_A p (SeqBool true) = Ok names -> elements_of sp p = Ok e -> fits sp names = true ->
+Theorem C20_elements_of_structure : forall sp p names e,
+  expand_A p (SeqBool true) = Ok names -> elements_of sp p = Ok e ->
   names_tree e = names /\ placed sp e.
-Proof. exact elements_of_structure_partial. Qed.
-Print Assumptions C20_elements_of_structure_partial.
+Proof. exact elements_of_structure. Qed.
+Print Assumptions C20_elements_of_structure.
 
 Theorem C20_element_of_no_name_lost : forall sp p names e,
-  expand_A p SeqAbsent = Ok names -> element_of sp p = Ok e -> fits sp names = true ->
+  expand_A p SeqAbsent = Ok names -> element_of sp p = Ok e ->
   map fst (leaves e) = flat_out names.
 Proof. exact element_of_names. Qed.
 Print Assumptions C20_element_of_no_name_lost.
 
-(* a product space is flat, and one plain name per entry gives literally zip(spaces, names) *)
+Theorem C20_elements_of_no_name_lost : forall sp p names e,
+  expand_A p (SeqBool true) = Ok names -> elements_of sp p = Ok e ->
+  map fst (leaves e) = flat_out names.
+Proof. exact elements_of_names. Qed.
+Print Assumptions C20_elements_of_no_name_lost.
+
+(* a number of names different from the number of component spaces is refused, never cut *)
+Theorem C20_length_mismatch_refused : forall c spaces l,
+  length l <> length spaces ->
+  rec_element_of (SProduct spaces) (OSeq c l) = Err ValueErr /\
+  rec_elements_of (SProduct spaces) (OSeq c l) = Err ValueErr.
+Proof. exact length_mismatch_refused. Qed.
+Print Assumptions C20_length_mismatch_refused.
+
+(* for the record: the code before the repair f3da127 (zip without a length check) violated the
+   statement: element_of(V*W, 'a,b,c') returned (a, b) *)
+Theorem C20_element_structure_refuted_before_fix :
+  exists sp p names e, expand_A p SeqAbsent = Ok names /\ element_of_before_fix sp p = Ok e /\
+                       names_tree e <> names /\ map fst (leaves e) <> flat_out names.
+Proof. exact element_structure_refuted_before_fix. Qed.
+Print Assumptions C20_element_structure_refuted_before_fix.
+
+(* a product space is flat, and one plain name per component gives literally zip(spaces, names) *)
 Theorem C20_product_is_flat : forall l,
   forallb flat_space l = true ->
   flat_space (product_new l) = true /\ comps (product_new l) = flat_map comps l.
@@ -126,7 +138,7 @@ Proof. exact product_new_spec. Qed.
 Print Assumptions C20_product_is_flat.
 
 Theorem C20_element_of_is_zip : forall c spaces ns,
-  forallb is_basic spaces = true ->
+  forallb is_basic spaces = true -> length ns = length spaces ->
   rec_element_of (SProduct spaces) (OSeq c (map OName ns)) = Ok (ESeq c (map mkfun (combine spaces ns))) /\
   rec_elements_of (SProduct spaces) (OSeq c (map OName ns)) = Ok (ESeq c (map mkfun (combine spaces ns))).
 Proof. exact element_of_is_zip. Qed.
@@ -135,7 +147,7 @@ Print Assumptions C20_element_of_is_zip.
 Theorem C20_element_of_leaves : forall c spaces ns e,
   forallb is_basic spaces = true ->
   rec_element_of (SProduct spaces) (OSeq c (map OName ns)) = Ok e ->
-  leaves e = combine ns spaces /\ (length ns <= length spaces -> map fst (leaves e) = ns).
+  leaves e = combine ns spaces /\ map fst (leaves e) = ns /\ map snd (leaves e) = spaces.
 Proof. exact element_of_leaves. Qed.
 Print Assumptions C20_element_of_leaves.
 
@@ -173,26 +185,29 @@ Proof.
   intros s [<-|[<-|[<-|[]]]]; vm_compute; reflexivity.
 Qed.
 
-(* the witnesses of the two refutations, as the real code shows them *)
+(* the witness of the refutation, as the real code shows it, and the repaired refusal *)
 Example C20_ex_witnesses :
   expand_A (PSeq CList [PStr "x"; PStr "y"]) (SeqBool true) = Ok (OSeq CList [OName "x"; OName "y"]) /\
   symbols_B (PSeq CList [PStr "x"; PStr "y"]) (SeqBool true) =
     Ok (OSeq CList [OSeq CTuple [OName "x"]; OSeq CTuple [OName "y"]]) /\
-  element_of (product_new [SBasic KScalar "V"; SBasic KVector "W"]) (PStr "a,b,c") =
+  element_of (product_new [SBasic KScalar "V"; SBasic KVector "W"]) (PStr "a,b,c") = Err ValueErr /\
+  element_of_before_fix (product_new [SBasic KScalar "V"; SBasic KVector "W"]) (PStr "a,b,c") =
     Ok (ESeq CTuple [EFun KScalar "a" (SBasic KScalar "V"); EFun KVector "b" (SBasic KVector "W")]).
 Proof. vm_compute. repeat split. Qed.
 
-(* the hypothesis [fits] is met, with a non-trivial result, for a product of three spaces
-   (one factor itself a product) and for several elements of one space *)
-Example C20_ex_fits :
+(* the structure theorems are not vacuous: elements are created, with a non-trivial result, for a
+   product of three spaces (one factor itself a product) and for several elements of one space *)
+Example C20_ex_elements :
   let V := SBasic KScalar "V" in let W := SBasic KVector "W" in let X := SBasic KScalar "X" in
   let sp := product_new [V; product_new [W; X]] in
-  fits sp (OSeq CTuple [OName "u0"; OName "u1"; OName "u2"]) = true /\
   forallb flat_space [V; product_new [W; X]] = true /\
   element_of sp (PStr "u:3") = Ok (ESeq CTuple [EFun KScalar "u0" V; EFun KVector "u1" W; EFun KScalar "u2" X]) /\
-  fits W (OSeq CList [OName "a"; OSeq CTuple [OName "b0"; OName "b1"]]) = true /\
+  element_of V (PStr "v") = Ok (EFun KScalar "v" V) /\
   elements_of W (PSeq CList [PStr "a"; PStr "b:2"]) =
-    Ok (ESeq CList [EFun KVector "a" W; ESeq CTuple [EFun KVector "b0" W; EFun KVector "b1" W]]).
+    Ok (ESeq CList [EFun KVector "a" W; ESeq CTuple [EFun KVector "b0" W; EFun KVector "b1" W]]) /\
+  elements_of sp (PSeq CList [PStr "a,b"; PStr "c"; PStr "d:2"]) =
+    Ok (ESeq CList [ESeq CTuple [EFun KScalar "a" V; EFun KScalar "b" V]; ESeq CTuple [EFun KVector "c" W];
+                    ESeq CTuple [EFun KScalar "d0" X; EFun KScalar "d1" X]]).
 Proof. vm_compute. repeat split. Qed.
 
 (* outside the property's quantifier (seq=None given explicitly, seq not a bool) the two
